@@ -230,7 +230,7 @@ def canon(line):
     if snd == BUS_HEX or snd == "-":
         line = _ser.sub(" ser=*", line)
         if " t=3 " in " " + line:
-            line = re.sub(r" body=.*$", " body=~", line)
+            line = re.sub(r" body=.*? uk=", " body=~ uk=", line)
     if " member=" + b"ListNames".hex() not in line:
         pass
     return line
@@ -238,10 +238,10 @@ def canon(line):
 
 def sort_string_array(line):
     """ListNames replies come out of a hash table: sort the elements of a lone string array"""
-    m = re.search(r" body=A\[s\|(.*)\]$", line)
+    m = re.search(r" body=A\[s\|([^\]]*)\] uk=", line)
     if m and m.group(1).startswith("s:" + BUS_HEX + ","):
         items = m.group(1).split(",") if m.group(1) else []
-        line = line[:m.start()] + " body=A[s|" + ",".join(sorted(items)) + "]"
+        line = line[:m.start()] + " body=A[s|" + ",".join(sorted(items)) + "]" + line[m.end() - 4:]
     return line
 
 
@@ -249,7 +249,7 @@ def dump_raw(raws):
     """raw wire messages -> canonical lines (printed by the model's own decoder)"""
     if not raws:
         return []
-    outs = script.run_model("".join("wire demarshal " + r.hex() + "\n" for r in raws))[0]
+    outs = script.run_model("".join("wire demarshalx " + r.hex() + "\n" for r in raws))[0]
     return [sort_string_array(canon(o.split(" ; ")[0])) for o in outs]
 
 
